@@ -9,3 +9,4 @@ loop = REG.loop
 lemma = REG.lemma
 exception = REG.exception
 builder = REG.builder
+generator = REG.generator
